@@ -97,7 +97,7 @@ theorem field_id_exact_strict {fuel : Nat} {o : Orders} {src : Program} {c : Com
 accepted and the field gets identifier 25536. -/
 theorem field_wrap : ∃ c, compile 100 [] progD8 = .ok c ∧ fieldIdsOf c 0 (nm "S") = some [25536] ∧
     srcIds (!progD8.strict) (-1) [⟨some (-40000), nm "x", .optional, .base 0 .i32, none⟩] = [-40000] := by
-  have h : ((compile 100 [] progD8).toOption.map fun c => fieldIdsOf c 0 (nm "S")) = some (some [25536]) := by decide
+  have h : ((compile 100 [] progD8).toOption.map fun c => fieldIdsOf c 0 (nm "S")) = some (some [25536]) := by decide +kernel
   cases hc : compile 100 [] progD8 with
   | ok c => simp [hc, Res.toOption] at h; exact ⟨c, rfl, h, by decide⟩
   | err => simp [hc, Res.toOption] at h
@@ -123,7 +123,7 @@ theorem enum_value_exact_partial {fuel : Nat} {o : Orders} {src : Program} {c : 
 
 /-- **Negation on the pinned tree (D7).** `enum E {A = 4294967296}` is accepted with `A = 0`. -/
 theorem enum_wrap : ∃ c, compile 100 [] progD7 = .ok c ∧ enumItemsOf c 0 (nm "E") = some [(nm "A", 0)] := by
-  have h : ((compile 100 [] progD7).toOption.map fun c => enumItemsOf c 0 (nm "E")) = some (some [(nm "A", 0)]) := by decide
+  have h : ((compile 100 [] progD7).toOption.map fun c => enumItemsOf c 0 (nm "E")) = some (some [(nm "A", 0)]) := by decide +kernel
   cases hc : compile 100 [] progD7 with
   | ok c => simp [hc, Res.toOption] at h; exact ⟨c, rfl, h⟩
   | err => simp [hc, Res.toOption] at h
@@ -154,7 +154,7 @@ theorem const_in_range_partial {fuel : Nat} {p : GProg} {m : Nat} {n : Int} {t :
 /-- **Negation on the pinned tree (D9).** `const i8 x = 1000` is accepted; the linked value is 1000. -/
 theorem i8_unchecked : ∃ c, compile 100 [] progD9 = .ok c ∧ constIntOf c 0 (nm "x") = some 1000 ∧
     ¬ inRange 8 1000 := by
-  have h : ((compile 100 [] progD9).toOption.map fun c => constIntOf c 0 (nm "x")) = some (some 1000) := by decide
+  have h : ((compile 100 [] progD9).toOption.map fun c => constIntOf c 0 (nm "x")) = some (some 1000) := by decide +kernel
   cases hc : compile 100 [] progD9 with
   | ok c => simp [hc, Res.toOption] at h; exact ⟨c, rfl, h, by decide⟩
   | err => simp [hc, Res.toOption] at h
@@ -190,7 +190,7 @@ theorem enum_const_exact_partial {em : Nat} {en item : Name} {items : List (Name
 /-- **Negation on the pinned tree (D9, enum lookup).** `enum E {A = 1}  const E x = 4294967297`
 is accepted as the item `A = 1`. -/
 theorem enum_cast_wraps : ∃ c, compile 100 [] progD9enum = .ok c ∧ constIsItem c 0 (nm "x") (nm "A") 1 = true := by
-  have h : ((compile 100 [] progD9enum).toOption.map fun c => constIsItem c 0 (nm "x") (nm "A") 1) = some true := by decide
+  have h : ((compile 100 [] progD9enum).toOption.map fun c => constIsItem c 0 (nm "x") (nm "A") 1) = some true := by decide +kernel
   cases hc : compile 100 [] progD9enum with
   | ok c => simp [hc, Res.toOption] at h; exact ⟨c, rfl, h⟩
   | err => simp [hc, Res.toOption] at h
@@ -205,7 +205,7 @@ theorem function_names_unique (fs : List Func) (gs : List GFunc) (h : gatherFunc
 /-- **Negation on the pinned tree (D6): a constant defined as itself is accepted.**
 `const i32 a = a` compiles; the linked value of `a` is a reference to `a`. -/
 theorem self_const_accepted : ∃ c, compile 100 [] progD6 = .ok c ∧ constIsRefTo c 0 (nm "a") (nm "a") = true := by
-  have h : ((compile 100 [] progD6).toOption.map fun c => constIsRefTo c 0 (nm "a") (nm "a")) = some true := by decide
+  have h : ((compile 100 [] progD6).toOption.map fun c => constIsRefTo c 0 (nm "a") (nm "a")) = some true := by decide +kernel
   cases hc : compile 100 [] progD6 with
   | ok c => simp [hc, Res.toOption] at h; exact ⟨c, rfl, h⟩
   | err => simp [hc, Res.toOption] at h
@@ -214,7 +214,7 @@ theorem self_const_accepted : ∃ c, compile 100 [] progD6 = .ok c ∧ constIsRe
 /-- **Negation on the pinned tree (D5, length 1): a service that extends itself is accepted.** -/
 theorem self_service_accepted : ∃ c, compile 100 [] progD5self = .ok c ∧
     alookup (0, nm "A") c.st.vpar = some (0, nm "A") := by
-  have h : ((compile 100 [] progD5self).toOption.map fun c => alookup (0, nm "A") c.st.vpar) = some (some (0, nm "A")) := by decide
+  have h : ((compile 100 [] progD5self).toOption.map fun c => alookup (0, nm "A") c.st.vpar) = some (some (0, nm "A")) := by decide +kernel
   cases hc : compile 100 [] progD5self with
   | ok c => simp [hc, Res.toOption] at h; exact ⟨c, rfl, h⟩
   | err => simp [hc, Res.toOption] at h
